@@ -47,7 +47,14 @@ impl Val {
                     format!("{:.16}", x).trim_end_matches('0').to_string()
                 }
             }
-            Val::Str(t, true) => format!("\"{}\"", t),
+            Val::Str(t, true) => {
+                // double quotes unless the text contains a double quote and no single quote
+                if t.contains('"') && !t.contains('\'') {
+                    format!("'{}'", t)
+                } else {
+                    format!("\"{}\"", t.replace('"', "\\\""))
+                }
+            }
             Val::Str(t, false) => t.clone(),
             Val::Null => "null".into(),
             Val::Bool(b) => b.to_string(),
@@ -89,7 +96,13 @@ impl Val {
     pub fn inspect(&self) -> String {
         match self {
             Val::Num(x) => fmtnum(*x),
-            Val::Str(t, true) => format!("\"{}\"", t),
+            Val::Str(t, true) => {
+                if t.contains('"') && !t.contains('\'') {
+                    format!("'{}'", t)
+                } else {
+                    format!("\"{}\"", t.replace('"', "\\\""))
+                }
+            }
             Val::Str(t, false) => t.clone(),
             Val::Null => "null".into(),
             Val::Bool(b) => b.to_string(),
